@@ -3,6 +3,7 @@ package poolsim
 import (
 	"context"
 	"encoding/json"
+	"errors"
 	"fmt"
 	"io"
 	"math/big"
@@ -561,14 +562,14 @@ func (w *world) opResolve(op *Op) {
 	w.checkPub("Resolve", R0)
 }
 
-func (w *world) opResolverErr() {
+func (w *world) opResolverErr(op *Op) {
 	R0 := w.readySet()
 	w.resetObs()
 	addrs := map[*fsc]string{}
 	for _, sc := range w.cc.all {
 		addrs[sc] = sc.addrs
 	}
-	w.b.ResolverError(fmt.Errorf("resolver failed"))
+	w.b.ResolverError(resolverErr(op.Out))
 	if len(w.cc.created)+len(w.cc.removed)+len(w.cc.pubs)+w.cc.updAddr != 0 {
 		w.fail("C20", "A.reserr", "resolver error caused ClientConn calls: created=%d removed=%d published=%d updateAddresses=%d", len(w.cc.created), len(w.cc.removed), len(w.cc.pubs), w.cc.updAddr)
 	}
@@ -579,6 +580,29 @@ func (w *world) opResolverErr() {
 	}
 	w.labels["resolver-error"]++
 	w.checkPub("ResolverError", R0)
+}
+
+// resolverErrT is an error of a type of the harness's own (a resolver may report any error type).
+type resolverErrT struct{ code int }
+
+func (e resolverErrT) Error() string { return fmt.Sprintf("resolver failed with code %d", e.code) }
+
+func resolverErr(kind int) error {
+	switch kind {
+	case 1:
+		return status.Error(codes.Unavailable, "name resolution failed")
+	case 2:
+		return errors.New("resolver failed (plain)")
+	case 3:
+		return resolverErrT{3}
+	case 4:
+		return &resolverErrT{4}
+	case 5:
+		return context.DeadlineExceeded
+	case 6:
+		return fmt.Errorf("wrapped: %w", io.EOF)
+	}
+	return fmt.Errorf("resolver failed")
 }
 
 func (w *world) selectConn(op *Op) *fsc {
@@ -1688,7 +1712,7 @@ func (w *world) runOp(op *Op) {
 	case "resolve":
 		w.opResolve(op)
 	case "reserr":
-		w.opResolverErr()
+		w.opResolverErr(op)
 	case "state":
 		w.opState(op)
 	case "pick":
